@@ -60,7 +60,23 @@ def make_skeleton(n_nodes, edges=None, name="sk"):
     return sio.Skeleton(nodes=nodes, edges=[(nodes[a], nodes[b]) for a, b in edges], name=name)
 
 
-def write_labels(tmpdir, frames, skeleton, name="labels", embed=True, predicted=None, quiet=True):
+def _points3(p, stale):
+    """(K,2) array with NaN = missing -> (K,3) x/y/visible.  stale=True keeps plausible coordinates on the missing nodes
+    and marks them invisible (what a GUI does when a node is toggled off): `Instance.numpy()` shows NaN for them, the raw
+    stored xy does not."""
+    p = np.asarray(p, dtype=np.float64)
+    if not stale:
+        return p
+    vis = ~np.isnan(p).any(axis=1)
+    out = np.zeros((len(p), 3), dtype=np.float64)
+    out[:, 2] = vis
+    centre = np.nanmean(p[vis], axis=0) if vis.any() else np.array([5.0, 5.0])
+    for k in range(len(p)):
+        out[k, :2] = p[k] if vis[k] else centre + np.array([1.5 + k, -1.5])
+    return out
+
+
+def write_labels(tmpdir, frames, skeleton, name="labels", embed=True, predicted=None, quiet=True, stale_invisible=False):
     """frames: list of dicts {"image": (H,W,C) uint8, "instances": [ (K,2) arrays ], optional "frame_idx"}.
 
     Writes a PNG sequence + a .slp (embed=False) or .pkg.slp (embed=True: HDF5-embedded PNG frames) and
@@ -90,7 +106,7 @@ def write_labels(tmpdir, frames, skeleton, name="labels", embed=True, predicted=
     lfs = []
     for i, fr in enumerate(frames):
         video = videos[fr.get("video", 0)]
-        insts = [sio.Instance.from_numpy(np.asarray(p, dtype=np.float64), skeleton=skeleton) for p in fr["instances"]]
+        insts = [sio.Instance.from_numpy(_points3(p, stale_invisible), skeleton=skeleton) for p in fr["instances"]]
         if predicted is not None:
             for pts, score in predicted[i]:
                 insts.append(
